@@ -1,6 +1,6 @@
 (* C14 - property theorems only.  The samplers themselves are validated statistically by the harness, never proved. *)
 From Coq Require Import ZArith QArith Qcanon Reals List.
-Require Import PV.Num PV.UpperLimit PV.Empirical.
+Require Import PV.Num PV.UpperLimit PV.Empirical PV.gen.EmpiricalGen PV.TieEmpirical.
 Import ListNotations.
 
 Theorem C14_pvalue_is_tail_fraction : forall (N : Num) (samples : list (V N)) value,
@@ -47,6 +47,22 @@ Theorem C14_toy_pvalues_are_tail_fractions : forall (N : Num) (t : V N) sb b,
   toy_pvalues t sb b = (frac sb, frac b, ndiv N (frac sb) (frac b)).
 Proof. exact toy_pvalues_are_tail_fractions. Qed.
 
+(* --- tie to the source: EmpiricalDistribution.pvalue / expected_value and ToyCalculator.pvalues are translated to
+   PV.gen.EmpiricalGen on every run (harness/props/c14.py:extract); they ARE the transcription the theorems above are about --- *)
+Theorem C14_source_is_model_pvalue : forall (N : Num) Phi percentile (samples : list (V N)) value,
+  gen_pvalue N Phi percentile samples value = pvalue samples value.
+Proof. exact tie_pvalue. Qed.
+(* expected_value: the percentile of self.samples at normal_cdf(nsigma) * 100, linear interpolation *)
+Theorem C14_source_is_model_expected_value : forall (N : Num) Phi (samples : list (V N)) nsigma,
+  gen_expected_value N Phi (@percentile_linear N) samples nsigma = expected_value samples (nmul N (Phi nsigma) (nofZ N 100)).
+Proof. exact tie_expected_value. Qed.
+Theorem C14_source_is_model_expected_value_args : forall (N : Num) Phi percentile (samples : list (V N)) nsigma,
+  gen_expected_value N Phi percentile samples nsigma = percentile samples (nmul N (Phi nsigma) (nofZ N 100)).
+Proof. exact tie_expected_value_args. Qed.
+Theorem C14_source_is_model_toy_pvalues : forall (N : Num) Phi percentile (teststat : V N) sb b,
+  gen_toy_pvalues N Phi percentile teststat sb b = toy_pvalues teststat sb b.
+Proof. exact tie_toy_pvalues. Qed.
+
 Print Assumptions C14_pvalue_is_tail_fraction.
 Print Assumptions C14_pvalue_range.
 Print Assumptions C14_pvalue_antitone.
@@ -57,3 +73,7 @@ Print Assumptions C14_split_stitch.
 Print Assumptions C14_joint_sample_layout.
 Print Assumptions C14_toy_hypotheses.
 Print Assumptions C14_toy_pvalues_are_tail_fractions.
+Print Assumptions C14_source_is_model_pvalue.
+Print Assumptions C14_source_is_model_expected_value.
+Print Assumptions C14_source_is_model_expected_value_args.
+Print Assumptions C14_source_is_model_toy_pvalues.
